@@ -29,6 +29,15 @@ def cases(tier):
             del members[0]['rng_replay_of']
             cfg = {'scenario': 'batch', 'n': n, 'x': x, 'members': members, 'verify_each': True, 'actions': ['VerifyOnly', 'RecoverAndVerify', 'RecoverOnly']}
             out.append({'cfg': cfg, 'name': 'n%d x%d cap%d proof %s' % (n, x, cap, 'honest' if t is None else 'altered(%s)' % t['elem']), 'honest': t is None})
+    # the zero scalar carried as the statement's seed is just another wrong seed: same verdict, a value (not an error) from the recovering modes
+    for (n, x, cap) in [(8, 1, 1), (4, 2, 2)]:
+        mk = lambda ts: dict({'m': 1, 'cap': cap, 'seeded': True, 'name_idx': 0, 'rng_replay_of': None}, **({'tamper_statement': ts} if ts else {}))
+        members = [mk(None), mk({'op': 'seed_zero'}), mk({'op': 'seed_none'})]
+        members[1]['rng_replay_of'] = 0
+        members[2]['rng_replay_of'] = 0
+        del members[0]['rng_replay_of']
+        cfg = {'scenario': 'batch', 'n': n, 'x': x, 'members': members, 'verify_each': True, 'actions': ['VerifyOnly', 'RecoverAndVerify', 'RecoverOnly']}
+        out.append({'cfg': cfg, 'name': 'n%d x%d cap%d proof honest, other seed = 0' % (n, x, cap), 'honest': True})
     # a mask with zero entries: accepted and recovered like any other, whatever the seed and the mode
     for (n, x, cap, zc) in [(8, 2, 1, [1]), (4, 1, 2, [0]), (2, 6, 1, [0, 3, 5])]:
         mk = lambda ts: dict({'m': 1, 'cap': cap, 'seeded': True, 'name_idx': 0, 'rng_replay_of': None, 'zero_blinding_components': zc}, **({'tamper_statement': ts} if ts else {}))
@@ -149,7 +158,7 @@ def analyse(ctx, case, run, S):
             elif honest:
                 ctx.expect(False, 'C10:wrong-seed-none', '%s: no value returned for another seed' % case['name'], cfg, None)
     # every seed-derived nonce is keyed by the WHOLE seed element (00 | seed | indexes): two different seeds never share a key
-    if honest:
+    if honest and 'other seed = 0' not in case['name']:      # (a literal zero seed merges with the literal prefix of the key: layout checked on the symbolic seeds)
         lv = LogView(run.core)
         seeds = {v['name'] for v in run.core['vars'] if v['kind'] == 'seed'}
         okk = len(run.core['blake']) > 0
